@@ -1,6 +1,8 @@
 //! std facade whose `collections` and `Vec` are fixed-capacity array-backed models.
 //! Used only by the *model build* of the verification machinery (see /verif/DESIGN.md §3.2).
 #![allow(clippy::all)]
+#![allow(incomplete_features)]
+#![feature(specialization)]
 pub use std::*;
 
 pub mod vec {
@@ -62,6 +64,27 @@ pub mod model {
     }
     /// Capacity of every model container (build-time bound, `VSTD_CAP`, default 3).
     pub const CAP: usize = parse_cap(option_env!("VSTD_CAP"));
+    /// Keys with a tiny integer domain are stored *direct-mapped* (slot index = key value): no search
+    /// loops, no shifting, iteration in slot order is key order. Everything else uses the searched /
+    /// sorted-prefix representation.
+    pub trait ModelKey {
+        const DIRECT: bool;
+        fn midx(&self) -> usize;
+    }
+    impl<T: ?Sized> ModelKey for T {
+        default const DIRECT: bool = false;
+        #[inline(always)]
+        default fn midx(&self) -> usize {
+            0
+        }
+    }
+    impl ModelKey for u8 {
+        const DIRECT: bool = true;
+        #[inline(always)]
+        fn midx(&self) -> usize {
+            *self as usize
+        }
+    }
     #[cold]
     #[inline(never)]
     pub fn cap_exceeded() -> ! {
@@ -432,7 +455,7 @@ pub mod model {
 
     /// Sorted array map.
     pub mod bmap {
-        use super::CAP;
+        use super::{ModelKey, CAP};
         use core::borrow::Borrow;
 
         #[derive(Clone)]
@@ -464,7 +487,7 @@ pub mod model {
                 self.len == 0
             }
             pub fn iter(&self) -> Iter<'_, K, V> {
-                Iter { m: self, lo: 0, hi: self.len }
+                Iter { m: self, lo: 0, hi: if <K as ModelKey>::DIRECT { CAP } else { self.len } }
             }
             pub fn keys(&self) -> Keys<'_, K, V> {
                 Keys(self.iter())
@@ -485,6 +508,16 @@ pub mod model {
             where
                 K: Borrow<Q>,
             {
+                if <K as ModelKey>::DIRECT {
+                    let i = k.midx();
+                    if i < CAP {
+                        return match &self.slots[i] {
+                            Some((_, v)) => Some(v),
+                            None => None,
+                        };
+                    }
+                    return None;
+                }
                 let mut i = 0;
                 while i < CAP {
                     if i < self.len {
@@ -502,6 +535,16 @@ pub mod model {
             where
                 K: Borrow<Q>,
             {
+                if <K as ModelKey>::DIRECT {
+                    let i = k.midx();
+                    if i < CAP {
+                        return match &mut self.slots[i] {
+                            Some((_, v)) => Some(v),
+                            None => None,
+                        };
+                    }
+                    return None;
+                }
                 let len = self.len;
                 let mut i = 0;
                 for s in self.slots.iter_mut() {
@@ -516,6 +559,17 @@ pub mod model {
                 }
                 None
             }
+            pub fn get_key_value<Q: ?Sized + Ord>(&self, k: &Q) -> Option<(&K, &V)>
+            where
+                K: Borrow<Q>,
+            {
+                for (kk, v) in self.iter() {
+                    if kk.borrow() == k {
+                        return Some((kk, v));
+                    }
+                }
+                None
+            }
             pub fn contains_key<Q: ?Sized + Ord>(&self, k: &Q) -> bool
             where
                 K: Borrow<Q>,
@@ -523,6 +577,20 @@ pub mod model {
                 self.get(k).is_some()
             }
             pub fn insert(&mut self, k: K, v: V) -> Option<V> {
+                if <K as ModelKey>::DIRECT {
+                    let i = k.midx();
+                    if i >= CAP {
+                        super::cap_exceeded();
+                    }
+                    let old = core::mem::replace(&mut self.slots[i], Some((k, v)));
+                    return match old {
+                        Some((_, ov)) => Some(ov),
+                        None => {
+                            self.len += 1;
+                            None
+                        }
+                    };
+                }
                 let mut i = 0;
                 while i < CAP {
                     if i < self.len {
@@ -539,6 +607,15 @@ pub mod model {
             }
             /// Insert a key known to be absent; returns the slot index it landed in.
             fn insert_new(&mut self, k: K, v: V) -> usize {
+                if <K as ModelKey>::DIRECT {
+                    let i = k.midx();
+                    if i >= CAP {
+                        super::cap_exceeded();
+                    }
+                    self.slots[i] = Some((k, v));
+                    self.len += 1;
+                    return i;
+                }
                 if self.len >= CAP { super::cap_exceeded(); }
                 let mut cur = Some((k, v));
                 let mut placed = CAP;
@@ -572,6 +649,19 @@ pub mod model {
             where
                 K: Borrow<Q>,
             {
+                if <K as ModelKey>::DIRECT {
+                    let i = k.midx();
+                    if i < CAP {
+                        return match self.slots[i].take() {
+                            Some((_, v)) => {
+                                self.len -= 1;
+                                Some(v)
+                            }
+                            None => None,
+                        };
+                    }
+                    return None;
+                }
                 let mut found: Option<(K, V)> = None;
                 let mut i = 0;
                 while i < CAP {
@@ -608,6 +698,20 @@ pub mod model {
                 for (k, v) in o {
                     self.insert(k, v);
                 }
+            }
+            pub fn retain<F: FnMut(&K, &mut V) -> bool>(&mut self, mut f: F) {
+                let old = core::mem::take(self);
+                for (k, mut v) in old {
+                    if f(&k, &mut v) {
+                        self.insert(k, v);
+                    }
+                }
+            }
+            pub fn first_key_value(&self) -> Option<(&K, &V)> {
+                self.iter().next()
+            }
+            pub fn last_key_value(&self) -> Option<(&K, &V)> {
+                self.iter().next_back()
             }
         }
 
@@ -651,7 +755,7 @@ pub mod model {
                 }
                 let mut i = 0;
                 while i < CAP {
-                    if i < self.len && self.slots[i] != o.slots[i] {
+                    if self.slots[i] != o.slots[i] {
                         return false;
                     }
                     i += 1;
@@ -692,23 +796,26 @@ pub mod model {
         impl<'a, K, V> Iterator for Iter<'a, K, V> {
             type Item = (&'a K, &'a V);
             fn next(&mut self) -> Option<Self::Item> {
-                if self.lo < self.hi {
+                while self.lo < self.hi {
                     let r = self.m.slots[self.lo].as_ref().map(|(k, v)| (k, v));
                     self.lo += 1;
-                    r
-                } else {
-                    None
+                    if r.is_some() {
+                        return r;
+                    }
                 }
+                None
             }
         }
         impl<'a, K, V> DoubleEndedIterator for Iter<'a, K, V> {
             fn next_back(&mut self) -> Option<Self::Item> {
-                if self.lo < self.hi {
+                while self.lo < self.hi {
                     self.hi -= 1;
-                    self.m.slots[self.hi].as_ref().map(|(k, v)| (k, v))
-                } else {
-                    None
+                    let r = self.m.slots[self.hi].as_ref().map(|(k, v)| (k, v));
+                    if r.is_some() {
+                        return r;
+                    }
                 }
+                None
             }
         }
         pub struct Keys<'a, K, V>(Iter<'a, K, V>);
@@ -751,23 +858,26 @@ pub mod model {
         impl<K, V> Iterator for IntoIter<K, V> {
             type Item = (K, V);
             fn next(&mut self) -> Option<Self::Item> {
-                if self.lo < self.hi {
+                while self.lo < self.hi {
                     let r = self.m.slots[self.lo].take();
                     self.lo += 1;
-                    r
-                } else {
-                    None
+                    if r.is_some() {
+                        return r;
+                    }
                 }
+                None
             }
         }
         impl<K, V> DoubleEndedIterator for IntoIter<K, V> {
             fn next_back(&mut self) -> Option<Self::Item> {
-                if self.lo < self.hi {
+                while self.lo < self.hi {
                     self.hi -= 1;
-                    self.m.slots[self.hi].take()
-                } else {
-                    None
+                    let r = self.m.slots[self.hi].take();
+                    if r.is_some() {
+                        return r;
+                    }
                 }
+                None
             }
         }
         pub struct IntoValues<K, V>(IntoIter<K, V>);
@@ -781,7 +891,7 @@ pub mod model {
             type Item = (K, V);
             type IntoIter = IntoIter<K, V>;
             fn into_iter(self) -> IntoIter<K, V> {
-                let hi = self.len;
+                let hi = if <K as ModelKey>::DIRECT { CAP } else { self.len };
                 IntoIter { m: self, lo: 0, hi }
             }
         }
@@ -1017,7 +1127,7 @@ pub mod model {
 
     /// Unordered slot map: iteration order is slot order.
     pub mod hmap {
-        use super::CAP;
+        use super::{ModelKey, CAP};
         use core::borrow::Borrow;
 
         #[derive(Clone)]
@@ -1067,6 +1177,16 @@ pub mod model {
             where
                 K: Borrow<Q>,
             {
+                if <K as ModelKey>::DIRECT {
+                    let i = k.midx();
+                    if i < CAP {
+                        return match &self.slots[i] {
+                            Some((_, v)) => Some(v),
+                            None => None,
+                        };
+                    }
+                    return None;
+                }
                 let mut i = 0;
                 while i < CAP {
                     if let Some((kk, v)) = &self.slots[i] {
@@ -1082,6 +1202,16 @@ pub mod model {
             where
                 K: Borrow<Q>,
             {
+                if <K as ModelKey>::DIRECT {
+                    let i = k.midx();
+                    if i < CAP {
+                        return match &mut self.slots[i] {
+                            Some((_, v)) => Some(v),
+                            None => None,
+                        };
+                    }
+                    return None;
+                }
                 for s in self.slots.iter_mut() {
                     if let Some((kk, v)) = s {
                         if (*kk).borrow() == k {
@@ -1098,6 +1228,14 @@ pub mod model {
                 self.get(k).is_some()
             }
             pub fn insert(&mut self, k: K, v: V) -> Option<V> {
+                if <K as ModelKey>::DIRECT {
+                    let i = k.midx();
+                    if i >= CAP {
+                        super::cap_exceeded();
+                    }
+                    let old = core::mem::replace(&mut self.slots[i], Some((k, v)));
+                    return old.map(|(_, ov)| ov);
+                }
                 let mut i = 0;
                 while i < CAP {
                     if let Some((kk, vv)) = &mut self.slots[i] {
@@ -1111,6 +1249,14 @@ pub mod model {
                 None
             }
             fn insert_new(&mut self, k: K, v: V) -> usize {
+                if <K as ModelKey>::DIRECT {
+                    let i = k.midx();
+                    if i >= CAP {
+                        super::cap_exceeded();
+                    }
+                    self.slots[i] = Some((k, v));
+                    return i;
+                }
                 let mut cur = Some((k, v));
                 let mut placed = CAP;
                 let mut i = 0;
@@ -1128,6 +1274,13 @@ pub mod model {
             where
                 K: Borrow<Q>,
             {
+                if <K as ModelKey>::DIRECT {
+                    let i = k.midx();
+                    if i < CAP {
+                        return self.slots[i].take().map(|(_, v)| v);
+                    }
+                    return None;
+                }
                 let mut i = 0;
                 while i < CAP {
                     let hit = match &self.slots[i] {
@@ -1143,6 +1296,22 @@ pub mod model {
             }
             pub fn entry(&mut self, k: K) -> Entry<'_, K, V> {
                 Entry { m: self, k }
+            }
+            pub fn retain<F: FnMut(&K, &mut V) -> bool>(&mut self, mut f: F) {
+                let mut i = 0;
+                while i < CAP {
+                    let keep = match &mut self.slots[i] {
+                        Some((k, v)) => f(k, v),
+                        None => true,
+                    };
+                    if !keep {
+                        self.slots[i] = None;
+                    }
+                    i += 1;
+                }
+            }
+            pub fn clear(&mut self) {
+                *self = Self::new();
             }
         }
         pub struct Entry<'a, K, V> {
@@ -1179,6 +1348,22 @@ pub mod model {
         }
         impl<K: Eq, V: PartialEq> PartialEq for HashMap<K, V> {
             fn eq(&self, o: &Self) -> bool {
+                if <K as ModelKey>::DIRECT {
+                    let mut i = 0;
+                    let mut r = true;
+                    while i < CAP {
+                        let same = match (&self.slots[i], &o.slots[i]) {
+                            (Some((_, a)), Some((_, b))) => a == b,
+                            (None, None) => true,
+                            _ => false,
+                        };
+                        if !same {
+                            r = false;
+                        }
+                        i += 1;
+                    }
+                    return r;
+                }
                 if self.len() != o.len() {
                     return false;
                 }
